@@ -16,7 +16,7 @@
 (* chunks) then "op" (merges / in-place merges / scalings / copies in any  *)
 (* order and grouping, and further fills of results and sources).          *)
 (***************************************************************************)
-EXTENDS HgSem, HgParse
+EXTENDS HgSem, HgParse, HgViews
 
 CONSTANTS D,          \* the descriptor all slots share
           Data,       \* set of datum records (the critical alphabet of D)
@@ -159,6 +159,55 @@ RT2 == \A s \in Slots : Parse(RTdoc(s)).st = "valid"
 RT3 == \A s \in Slots : Parse(RTdoc(s)).c = pool[s]
 RT4 == \A s \in Slots : LET r == Parse(RTdoc(s)) IN DocEq(ToDoc(r.c, r.d), RTdoc(s))
 RT5 == \A s \in Slots : LET r == Parse(RTdoc(s)) IN CompatD(D, r.d) /\ CompatD(r.d, D)
+
+(* C13 at the design level: the partition the views describe (HgViews: edges, entries) is the partition fill    *)
+(* uses (HgTree: BinIndex / SparseKey / CentralIndex / IrrIndex) - on every reachable state a finite value lies  *)
+(* in at most one bin of the edges, the entry reported there is the content of the bin fill routes it to, the    *)
+(* edges increase, and the full-range entries plus the flows account for every filled weight                     *)
+Binning(c) == c.k \in {"Bin", "SparselyBin", "CentrallyBin", "IrregularlyBin"}
+FlowTotal(c) == CASE c.k = "Bin" -> Add(Add(c.under.e, c.over.e), c.nan.e)
+                  [] c.k = "IrregularlyBin" -> c.nan.e    \* (its first threshold is -inf: no underflow)
+                  [] OTHER -> c.nan.e
+ViewsAgree ==
+  \A s \in Slots : LET c == pool[s] IN
+    (Binning(c) /\ (c.k = "SparselyBin" => ViewableSparse(c))) =>
+      LET E == ViewEdges(c)
+          ent == ViewEntries(c)
+      IN /\ Len(ent) = Len(E) - 1
+         /\ \A k \in 1..(Len(E) - 1) : Lt(E[k], E[k + 1])
+         /\ Add(SumQ(ent), FlowTotal(c)) = c.e
+         /\ \A x \in Data : LET q == QV(D, x) IN
+              (IsNum(q) /\ IsFin(q)) =>
+                LET K == {k \in 1..Len(ent) : Le(E[k], q) /\ Lt(q, E[k + 1])} IN
+                /\ Cardinality(K) <= 1
+                /\ \A k \in K : ent[k] = EntryAt(c, q)
+                /\ (K = {} => EntryAt(c, q) = Q(0))
+                (* and a sub-range query around q selects that bin *)
+                /\ \A k \in K : LET X == ViewExpect(c, TRUE, q, FALSE, q, <<q>>) IN
+                                  X.nb >= 1 /\ X.xent = <<ent[k]>> /\ Consistent(X)
+
+(* C15 at the design level: Parse is sound on every single-point mutation of every reachable document - what it   *)
+(* declares valid is a content of the parsed descriptor whose own document is the mutant (nothing dropped,       *)
+(* duplicated or defaulted; totals are not re-derived: a document is not required to satisfy WF); the unmutated  *)
+(* document is valid (RoundTrip)                                                                                 *)
+(* (one degenerate class is left out: a number written into the variance of an EMPTY Deviate - the aggregator    *)
+(* keeps variance x entries, which cannot hold a variance when entries = 0; the value is meaningless either way) *)
+EmptyVariance(doc, m) ==
+  /\ m.kind = "retype" /\ Len(m.p) > 0 /\ m.p[Len(m.p)].k = "variance"
+  /\ LET parent == At(doc, SubSeq(m.p, 1, Len(m.p) - 1)) IN
+       parent.j = "obj" /\ "entries" \in DOMAIN parent.v /\ parent.v.entries = JNum(Q(0))
+ParseSound ==
+  \A s \in Slots :
+    LET doc == ToDoc(pool[s], D) IN
+    \A m \in {mm \in MutIds(doc) : ~EmptyVariance(doc, mm)} :
+      LET md == Apply(doc, m)
+          r == Parse(md)
+      IN r.st = "valid" => (* (an older compatible version number is the one thing that is read but not kept) *)
+                           /\ DocEq(ToDoc(r.c, r.d), IF m.kind = "version" THEN doc ELSE md)
+(* ... and it is not vacuous: most mutants are invalid                                                           *)
+MutantStats(doc) == LET M == MutIds(doc) IN
+  [n |-> Cardinality(M), invalid |-> Cardinality({m \in M : Parse(Apply(doc, m)).st = "invalid"}),
+   valid |-> Cardinality({m \in M : Parse(Apply(doc, m)).st = "valid"})]
 
 (* C06 / C07: every step changes at most the slot its action names          *)
 FrameOK ==
